@@ -33,6 +33,7 @@ type armNorm struct {
 	c    *Ctx
 	node string // variable holding the typed node
 	idx  map[string]string
+	post [][2]string // textual rewrites applied after the substitution (index expression → ι)
 }
 
 func (a *armNorm) norm(e ast.Expr) string {
@@ -56,8 +57,382 @@ func (a *armNorm) norm(e ast.Expr) string {
 	}
 	s = strings.ReplaceAll(s, "int(N.childrenLen)", "N.childrenLen")
 	s = strings.ReplaceAll(s, "uint8(0)", "0")
+	for _, rw := range a.post {
+		s = strings.ReplaceAll(s, rw[0], rw[1])
+	}
 	s = strings.ReplaceAll(s, "int(N.keys[ι])", "N.keys[ι]")
 	return s
+}
+
+// linForm: an expression of the form X, X±c or c (conversions and parentheses stripped), with X
+// a normalised text that does not mention the loop variable.
+type linForm struct {
+	base string
+	off  int64
+}
+
+func (l linForm) String() string {
+	switch {
+	case l.base == "":
+		return fmt.Sprint(l.off)
+	case l.off == 0:
+		return l.base
+	case l.off > 0:
+		return fmt.Sprintf("(%s + %d)", l.base, l.off)
+	}
+	return fmt.Sprintf("(%s - %d)", l.base, -l.off)
+}
+
+func (a *armNorm) lin(e ast.Expr) (linForm, bool) {
+	info := a.c.m.Info
+	e = ast.Unparen(e)
+	if tv, ok := info.Types[e]; ok && tv.Value != nil && tv.Value.Kind() == constant.Int {
+		if v, exact := constant.Int64Val(tv.Value); exact {
+			return linForm{"", v}, true
+		}
+	}
+	switch x := e.(type) {
+	case *ast.CallExpr:
+		if isConversion(info, x) && len(x.Args) == 1 {
+			return a.lin(x.Args[0])
+		}
+		if isBuiltinCall(info, x, "len") && len(x.Args) == 1 {
+			// len(N.keys), len(N.children): the array length
+			t := info.TypeOf(x.Args[0])
+			if p, ok := t.Underlying().(*types.Pointer); ok {
+				t = p.Elem()
+			}
+			if arr, ok := t.Underlying().(*types.Array); ok {
+				return linForm{"", arr.Len()}, true
+			}
+		}
+	case *ast.BinaryExpr:
+		if x.Op == token.ADD || x.Op == token.SUB {
+			l, ok1 := a.lin(x.X)
+			r, ok2 := a.lin(x.Y)
+			if ok1 && ok2 && r.base == "" {
+				if x.Op == token.ADD {
+					return linForm{l.base, l.off + r.off}, true
+				}
+				return linForm{l.base, l.off - r.off}, true
+			}
+			if ok1 && ok2 && l.base == "" && x.Op == token.ADD {
+				return linForm{r.base, l.off + r.off}, true
+			}
+		}
+		return linForm{}, false
+	}
+	return linForm{a.norm(e), 0}, true
+}
+
+// affineIn: e = coef·v + off with coef ∈ {+1,-1} (conversions stripped); ok=false otherwise.
+func (a *armNorm) affineIn(e ast.Expr, v string) (coef int, off int64, ok bool) {
+	info := a.c.m.Info
+	e = ast.Unparen(e)
+	switch x := e.(type) {
+	case *ast.Ident:
+		if x.Name == v {
+			return 1, 0, true
+		}
+	case *ast.CallExpr:
+		if isConversion(info, x) && len(x.Args) == 1 {
+			return a.affineIn(x.Args[0], v)
+		}
+	case *ast.BinaryExpr:
+		cst := func(z ast.Expr) (int64, bool) {
+			if tv, ok := info.Types[z]; ok && tv.Value != nil && tv.Value.Kind() == constant.Int {
+				return constant.Int64Val(tv.Value)
+			}
+			return 0, false
+		}
+		switch x.Op {
+		case token.ADD:
+			if cf, o, ok := a.affineIn(x.X, v); ok {
+				if k, isC := cst(x.Y); isC {
+					return cf, o + k, true
+				}
+			}
+			if cf, o, ok := a.affineIn(x.Y, v); ok {
+				if k, isC := cst(x.X); isC {
+					return cf, o + k, true
+				}
+			}
+		case token.SUB:
+			if cf, o, ok := a.affineIn(x.X, v); ok {
+				if k, isC := cst(x.Y); isC {
+					return cf, o - k, true
+				}
+			}
+			if cf, o, ok := a.affineIn(x.Y, v); ok {
+				if k, isC := cst(x.X); isC {
+					return -cf, k - o, true
+				}
+			}
+		}
+	}
+	return 0, 0, false
+}
+
+// mentions: the identifier v occurs in e.
+func mentionsIdent(e ast.Node, v string) bool {
+	found := false
+	ast.Inspect(e, func(n ast.Node) bool {
+		if id, ok := n.(*ast.Ident); ok && id.Name == v {
+			found = true
+		}
+		return !found
+	})
+	return found
+}
+
+// loopHeader reads what a loop over the slots of the node enumerates: the direction and the
+// domain of the slot index ι, whatever the loop form – three-clause loops in either direction
+// (one-based counters with [i-1], reversed indices such as [255-i]), range over an integer, over
+// an array of the node or a prefix of it, over slices.All / slices.Backward of one. On success the
+// normaliser maps the index expression (and the value variable) to ι.
+func (a *armNorm) loopHeader(st ast.Stmt) (body *ast.BlockStmt, dir, domain, why string) {
+	info := a.c.m.Info
+	const ph = "§"
+	keyName := func(e ast.Expr) string {
+		if id, ok := e.(*ast.Ident); ok && id.Name != "_" {
+			return id.Name
+		}
+		return ""
+	}
+	// arrayOf: x is N.<array> or N.<array>[:H] / [:]; returns the array text and the domain
+	arrayOf := func(x ast.Expr) (arrText, dom string, ok bool) {
+		x = ast.Unparen(x)
+		if se, isS := x.(*ast.SliceExpr); isS && se.Low == nil && se.Max == nil {
+			if se.High != nil {
+				dom = a.norm(se.High)
+			}
+			x = ast.Unparen(se.X)
+		}
+		t := info.TypeOf(x)
+		if t == nil {
+			return "", "", false
+		}
+		if p, isP := t.Underlying().(*types.Pointer); isP {
+			t = p.Elem()
+		}
+		arr, isArr := t.Underlying().(*types.Array)
+		if !isArr || !strings.HasPrefix(a.norm(x), "N.") {
+			return "", "", false
+		}
+		if dom == "" {
+			dom = fmt.Sprint(arr.Len())
+		}
+		return a.norm(x), dom, true
+	}
+	var ivar string
+	var first, last linForm
+	step := 0
+	switch f := st.(type) {
+	case *ast.ForStmt:
+		as, ok1 := f.Init.(*ast.AssignStmt)
+		be, ok2 := f.Cond.(*ast.BinaryExpr)
+		if !ok1 || !ok2 || f.Post == nil || len(as.Lhs) != 1 || len(as.Rhs) != 1 {
+			return nil, "", "", "loop is not of the form for i := A; i ⋈ B; i++/--"
+		}
+		ivar = keyName(as.Lhs[0])
+		if ivar == "" {
+			return nil, "", "", "loop is not of the form for i := A; i ⋈ B; i++/--"
+		}
+		switch p := f.Post.(type) {
+		case *ast.IncDecStmt:
+			if keyName(p.X) != ivar {
+				return nil, "", "", "loop condition/post do not use the induction variable"
+			}
+			step = 1
+			if p.Tok == token.DEC {
+				step = -1
+			}
+		case *ast.AssignStmt:
+			if len(p.Lhs) == 1 && len(p.Rhs) == 1 && keyName(p.Lhs[0]) == ivar {
+				if tv, ok := info.Types[p.Rhs[0]]; ok && tv.Value != nil && tv.Value.ExactString() == "1" {
+					switch p.Tok {
+					case token.ADD_ASSIGN:
+						step = 1
+					case token.SUB_ASSIGN:
+						step = -1
+					}
+				}
+			}
+		}
+		if step == 0 {
+			return nil, "", "", "loop condition/post do not use the induction variable"
+		}
+		var ok bool
+		if first, ok = a.lin(as.Rhs[0]); !ok {
+			return nil, "", "", "unrecognised loop bounds"
+		}
+		op, bound := be.Op, be.Y
+		if keyName(ast.Unparen(be.X)) != ivar {
+			if keyName(ast.Unparen(be.Y)) != ivar {
+				return nil, "", "", "loop condition/post do not use the induction variable"
+			}
+			bound = be.X
+			op = map[token.Token]token.Token{token.LSS: token.GTR, token.GTR: token.LSS, token.LEQ: token.GEQ, token.GEQ: token.LEQ, token.NEQ: token.NEQ}[be.Op]
+		}
+		b, ok := a.lin(bound)
+		if !ok || mentionsIdent(bound, ivar) {
+			return nil, "", "", "unrecognised loop bounds"
+		}
+		switch {
+		case step == 1 && op == token.LSS:
+			last = linForm{b.base, b.off - 1}
+		case step == 1 && op == token.LEQ:
+			last = b
+		case step == -1 && op == token.GTR:
+			last = linForm{b.base, b.off + 1}
+		case step == -1 && op == token.GEQ:
+			last = b
+		default:
+			return nil, "", "", "unrecognised loop bounds"
+		}
+		body = f.Body
+	case *ast.RangeStmt:
+		x := ast.Unparen(f.X)
+		switch {
+		case isIntType(info.TypeOf(x)):
+			if f.Key == nil || f.Value != nil || keyName(f.Key) == "" {
+				return nil, "", "", "range over an integer without an index variable"
+			}
+			ivar = keyName(f.Key)
+			b, ok := a.lin(x)
+			if !ok {
+				return nil, "", "", "unrecognised loop bounds"
+			}
+			first, last, step = linForm{"", 0}, linForm{b.base, b.off - 1}, 1
+		default:
+			backward := false
+			if call, ok := x.(*ast.CallExpr); ok && len(call.Args) == 1 {
+				switch a.c.m.calleeName(call) {
+				case "slices.Backward":
+					backward, x = true, ast.Unparen(call.Args[0])
+				case "slices.All", "slices.Values":
+					x = ast.Unparen(call.Args[0])
+					if a.c.m.calleeName(call) == "slices.Values" {
+						// for v := range slices.Values(s): the only variable is the value
+						f = &ast.RangeStmt{Key: nil, Value: f.Key, X: f.X, Body: f.Body}
+					}
+				}
+			}
+			arrText, dom, ok := arrayOf(x)
+			if !ok {
+				return nil, "", "", "range loop over something that is not an array of the node"
+			}
+			d, _ := (&armNorm{c: a.c}).linText(dom)
+			first, last, step = linForm{"", 0}, linForm{d.base, d.off - 1}, 1
+			if backward {
+				first, last, step = last, first, -1
+			}
+			if f.Key != nil && keyName(f.Key) != "" {
+				ivar = keyName(f.Key)
+			}
+			if f.Value != nil && keyName(f.Value) != "" {
+				a.idx[keyName(f.Value)] = arrText + "[ι]"
+			}
+			if ivar == "" {
+				// only the value is used: the index is implicit
+				dir = "asc"
+				if backward {
+					dir = "desc"
+				}
+				return f.Body, dir, dom, ""
+			}
+		}
+		body = f.Body
+	default:
+		return nil, "", "", ""
+	}
+	// the index expressions into the arrays of the node that are affine in the loop variable
+	coef, off, seen := 0, int64(0), false
+	conflict := false
+	a.idx[ivar] = ph
+	ast.Inspect(body, func(n ast.Node) bool {
+		ie, ok := n.(*ast.IndexExpr)
+		if !ok || !mentionsIdent(ie.Index, ivar) {
+			return true
+		}
+		cf, o, isAff := a.affineIn(ie.Index, ivar)
+		if !isAff {
+			return true // e.g. N.children[N.keys[i]-1]: the inner index is looked at on its own
+		}
+		if seen && (cf != coef || o != off) {
+			conflict = true
+		}
+		coef, off, seen = cf, o, true
+		return true
+	})
+	if conflict {
+		delete(a.idx, ivar)
+		return nil, "", "", "the loop indexes the node with two different expressions of its variable"
+	}
+	if !seen {
+		coef, off = 1, 0
+	}
+	// ι = coef·i + off: its values at the first and the last iteration
+	at := func(l linForm) (linForm, bool) {
+		if coef == 1 {
+			return linForm{l.base, l.off + off}, true
+		}
+		if l.base != "" {
+			return linForm{}, false
+		}
+		return linForm{"", off - l.off}, true
+	}
+	lo, ok1 := at(first)
+	hi, ok2 := at(last)
+	if !ok1 || !ok2 {
+		delete(a.idx, ivar)
+		return nil, "", "", "unrecognised loop bounds"
+	}
+	zero := linForm{"", 0}
+	switch {
+	case lo == zero:
+		dir = "asc"
+		domain = linForm{hi.base, hi.off + 1}.String()
+	case hi == zero:
+		dir = "desc"
+		domain = linForm{lo.base, lo.off + 1}.String()
+	default:
+		delete(a.idx, ivar)
+		if step == -1 {
+			return nil, "", "", "descending loop starts at " + first.String()
+		}
+		return nil, "", "", "unrecognised loop bounds"
+	}
+	// map the index expression to ι
+	switch {
+	case coef == 1 && off == 0:
+		a.idx[ivar] = "ι"
+	default:
+		// normalised spellings of coef·§ + off
+		var forms []string
+		switch {
+		case coef == 1 && off > 0:
+			forms = []string{fmt.Sprintf("(%s + %d)", ph, off)}
+		case coef == 1 && off < 0:
+			forms = []string{fmt.Sprintf("(%s - %d)", ph, -off)}
+		case coef == -1:
+			forms = []string{fmt.Sprintf("(%d - %s)", off, ph)}
+		}
+		for _, f := range forms {
+			a.post = append(a.post, [2]string{f, "ι"}, [2]string{"int" + f, "ι"}, [2]string{"uint8" + f, "ι"})
+			a.post = append(a.post, [2]string{"(int(" + ph + ")" + f[len("("+ph):], "ι"})
+		}
+	}
+	return body, dir, domain, ""
+}
+
+// linText parses a normalised domain text ("256", "N.childrenLen") back into a linear form.
+func (a *armNorm) linText(s string) (linForm, bool) {
+	var v int64
+	if _, err := fmt.Sscanf(s, "%d", &v); err == nil && fmt.Sprint(v) == s {
+		return linForm{"", v}, true
+	}
+	return linForm{s, 0}, true
 }
 
 // negate a skip condition into an occupancy predicate list.
@@ -270,94 +645,12 @@ func (c *Ctx) summariseStmts(stmts []ast.Stmt, nodeName, byteVar string, pos tok
 	}
 	// enumerate: exactly one loop that pushes
 	if len(rest) == 1 {
-		var body *ast.BlockStmt
-		ivar := ""
-		switch f := rest[0].(type) {
-		case *ast.ForStmt:
-			as, ok1 := f.Init.(*ast.AssignStmt)
-			be, ok2 := f.Cond.(*ast.BinaryExpr)
-			post, ok3 := f.Post.(*ast.IncDecStmt)
-			if !ok1 || !ok2 || !ok3 || len(as.Lhs) != 1 {
-				s.why = "loop is not of the form for i := A; i ⋈ B; i++/--"
-				return s
-			}
-			ivar = as.Lhs[0].(*ast.Ident).Name
-			a.idx[ivar] = "ι"
-			init := a.norm(as.Rhs[0])
-			lim := a.norm(be.Y)
-			if a.norm(be.X) != "ι" || a.norm(post.X) != "ι" {
-				s.why = "loop condition/post do not use the induction variable"
-				return s
-			}
-			switch {
-			case post.Tok == token.INC && be.Op == token.LSS && init == "0":
-				s.dir, s.domain = "asc", lim
-			case post.Tok == token.DEC && be.Op == token.GEQ && lim == "0":
-				s.dir = "desc"
-				switch {
-				case strings.HasSuffix(init, " - 1)"):
-					s.domain = strings.TrimSuffix(strings.TrimPrefix(init, "("), " - 1)")
-				case init == "255":
-					s.domain = "256"
-				default:
-					s.why = "descending loop starts at " + init
-					return s
-				}
-			default:
-				s.why = "unrecognised loop bounds"
-				return s
-			}
-			body = f.Body
-		case *ast.RangeStmt:
-			keyName := func(e ast.Expr) string {
-				if id, ok := e.(*ast.Ident); ok && id.Name != "_" {
-					return id.Name
-				}
-				return ""
-			}
-			switch {
-			case isIntType(info.TypeOf(f.X)):
-				if f.Key == nil || f.Value != nil {
-					s.why = "range over an integer without an index variable"
-					return s
-				}
-				ivar = keyName(f.Key)
-				a.idx[ivar] = "ι"
-				s.dir, s.domain = "asc", a.norm(f.X)
-			default:
-				// range over an array of the node (N.keys, N.children) or a prefix of it
-				x := ast.Unparen(f.X)
-				dom := ""
-				if se, ok := x.(*ast.SliceExpr); ok && se.Low == nil && se.High != nil && se.Max == nil {
-					dom = a.norm(se.High)
-					x = ast.Unparen(se.X)
-				}
-				t := info.TypeOf(x)
-				if p, ok := t.Underlying().(*types.Pointer); ok {
-					t = p.Elem()
-				}
-				arr, isArr := t.Underlying().(*types.Array)
-				if !isArr || !strings.HasPrefix(a.norm(x), "N.") {
-					s.why = "range loop over something that is not an array of the node"
-					return s
-				}
-				if dom == "" {
-					dom = fmt.Sprint(arr.Len())
-				}
-				if f.Key != nil {
-					if k := keyName(f.Key); k != "" {
-						a.idx[k] = "ι"
-					}
-				}
-				if f.Value != nil {
-					if v := keyName(f.Value); v != "" {
-						a.idx[v] = a.norm(x) + "[ι]"
-					}
-				}
-				s.dir, s.domain = "asc", dom
-			}
-			body = f.Body
+		body, dir, domain, why := a.loopHeader(rest[0])
+		if why != "" {
+			s.why = why
+			return s
 		}
+		s.dir, s.domain = dir, domain
 		if body != nil {
 			var occ []string
 			var walkBody func(list []ast.Stmt) bool
@@ -397,6 +690,13 @@ func (c *Ctx) summariseStmts(stmts []ast.Stmt, nodeName, byteVar string, pos tok
 						if _, elem, ok := c.m.pushCall(x); ok {
 							s.child = a.norm(elem)
 							continue
+						}
+						// push(child, depth): a local closure that appends to the stack
+						if call, ok := x.X.(*ast.CallExpr); ok && len(call.Args) >= 1 && c.isNodeRefType(info.TypeOf(call.Args[0])) {
+							if v := identVar(info, call.Fun); v != nil && c.m.LitOfVar[v] != nil {
+								s.child = a.norm(call.Args[0])
+								continue
+							}
 						}
 						s.why = "unrecognised statement in loop body"
 						return false
@@ -442,6 +742,10 @@ func (c *Ctx) summariseStmts(stmts []ast.Stmt, nodeName, byteVar string, pos tok
 			}
 			sort.Strings(occ)
 			s.occ = strings.Join(occ, " && ")
+			if strings.Contains(s.child, "§") || strings.Contains(s.occ, "§") {
+				s.why = "the loop variable is used other than as the slot index"
+				return s
+			}
 			s.form = "enumerate"
 			if s.domain == "maxNode256" {
 				s.domain = "256"
@@ -561,6 +865,7 @@ func (c *Ctx) summariseStmts(stmts []ast.Stmt, nodeName, byteVar string, pos tok
 	{
 		var target ast.Expr
 		dir := ""
+		preDir := "" // ref = N.children[0] / [255] ahead of a scan that carries the value read
 		var occ []string
 		ok := true
 		for _, st := range rest {
@@ -577,6 +882,17 @@ func (c *Ctx) summariseStmts(stmts []ast.Stmt, nodeName, byteVar string, pos tok
 				}
 				if c.isNodeRefType(info.TypeOf(x.Rhs[0])) {
 					target = x.Rhs[0]
+					// ref = N.children[0] / [255] ahead of a carried scan fixes where the scan starts
+					if ie, isIdx := ast.Unparen(x.Rhs[0]).(*ast.IndexExpr); isIdx && dir == "" {
+						if tv, isC := info.Types[ie.Index]; isC && tv.Value != nil {
+							switch tv.Value.ExactString() {
+							case "0":
+								preDir = "first"
+							case "255":
+								preDir = "last"
+							}
+						}
+					}
 					continue
 				}
 				r := a.norm(x.Rhs[0])
@@ -594,7 +910,43 @@ func (c *Ctx) summariseStmts(stmts []ast.Stmt, nodeName, byteVar string, pos tok
 				default:
 					ok = false
 				}
+			case *ast.DeclStmt:
+				// var idx byte: the carried value of a three-clause scan starts as "not occupied"
+				continue
 			case *ast.ForStmt:
+				// three-clause scan that carries the value read: for b := F; <w not occupied>; b±± { w = N.arr[b] }
+				if x.Init != nil && x.Post != nil && x.Cond != nil && len(x.Body.List) == 1 {
+					ias, ok1 := x.Init.(*ast.AssignStmt)
+					post, ok2 := x.Post.(*ast.IncDecStmt)
+					bas, ok3 := x.Body.List[0].(*ast.AssignStmt)
+					if ok1 && ok2 && ok3 && len(ias.Lhs) == 1 && len(ias.Rhs) == 1 && len(bas.Lhs) == 1 && len(bas.Rhs) == 1 && bas.Tok == token.ASSIGN {
+						bvar, _ := ias.Lhs[0].(*ast.Ident)
+						wvar, _ := bas.Lhs[0].(*ast.Ident)
+						ie, isIdx := ast.Unparen(bas.Rhs[0]).(*ast.IndexExpr)
+						start, isConst := info.Types[ias.Rhs[0]]
+						if bvar != nil && wvar != nil && isIdx && isConst && start.Value != nil && identOf(post.X).Name == bvar.Name && identOf(ie.Index).Name == bvar.Name {
+							sv := start.Value.ExactString()
+							switch {
+							case post.Tok == token.INC && (sv == "0" || (sv == "1" && preDir == "first")):
+								dir = "first"
+							case post.Tok == token.DEC && (sv == "255" || (sv == "254" && preDir == "last")):
+								dir = "last"
+							default:
+								s.why = "scan starts at " + sv
+								return s
+							}
+							a.idx[bvar.Name] = "ι"
+							a.idx[wvar.Name] = a.norm(ie)
+							occ = append(occ, a.occFromSkip(x.Cond)...)
+							if c.isNodeRefType(info.TypeOf(bas.Rhs[0])) {
+								target = bas.Rhs[0]
+							}
+							continue
+						}
+					}
+					ok = false
+					continue
+				}
 				if x.Init != nil || x.Post != nil || len(x.Body.List) != 1 {
 					ok = false
 					continue
@@ -624,6 +976,10 @@ func (c *Ctx) summariseStmts(stmts []ast.Stmt, nodeName, byteVar string, pos tok
 				s.dir, s.domain = "first", "N.childrenLen"
 			case strings.HasSuffix(s.child, "[(N.childrenLen - 1)]"):
 				s.dir, s.domain = "last", "N.childrenLen"
+			case byteVar != "" && strings.HasSuffix(s.child, "[ι]") && len(occ) == 0:
+				// child = N.children[b]: an unconditional lookup by the probed byte – the caller
+				// tests the reference it gets
+				s.form, s.dir, s.domain = "lookup", "", "256"
 			default:
 				s.form, s.why = "other", "extreme picks "+s.child
 			}
@@ -804,6 +1160,8 @@ func ruleR09R19(c *Ctx) {
 				}
 				if s.domain == cn.domain && s.occ == cn.occ && s.child == cn.child {
 					c.r.ok("R09", key, m.pos(s.pos), "inlined lookup agrees with findChild: "+s.String(), props...)
+				} else if s.domain == cn.domain && s.child == cn.child && s.occ == "" && cn.occ == s.child+".pointer != nil" {
+					c.r.ok("R09", key, m.pos(s.pos), "inlined lookup hands out the slot as it is; an empty slot is the empty reference, which is what findChild's occupancy test ["+cn.occ+"] tells apart: "+s.String(), props...)
 				} else {
 					c.r.bad("R09", key, m.pos(s.pos), "inlined lookup "+s.String()+" disagrees with findChild "+cn.String(), props...)
 				}
